@@ -24,6 +24,7 @@ import (
 	"sort"
 	"strings"
 	"sync"
+	"sync/atomic"
 	"time"
 
 	"github.com/grailbio/base/eventlog"
@@ -56,6 +57,12 @@ type Desc struct {
 	Init  []string `json:"init"`
 	Roots [][]int  `json:"roots,omitempty"` // per evaluator (eval mode)
 	Ops   []Op     `json:"ops"`
+	// Cl: record Task.consecutiveLost also with several evaluations (scripted
+	// scenarios, where it does not depend on goroutine timing).
+	Cl bool `json:"cl,omitempty"`
+	// Procs: GOMAXPROCS while the case runs (0 = leave alone); schedule perturbation
+	// for the free-running trials, no effect on what a correct Eval lets us observe.
+	Procs int `json:"procs,omitempty"`
 }
 
 var stateNames = []string{"INIT", "WAITING", "RUNNING", "OK", "ERROR", "LOST"}
@@ -328,6 +335,7 @@ type evalRun struct {
 	cancel  context.CancelFunc
 	mu      sync.Mutex
 	started bool
+	entered atomic.Bool // the goroutine calling Eval is running (it is invisible in dumps before)
 	done    bool
 	err     error
 	paniced bool
@@ -342,6 +350,7 @@ func (r *evalRun) result() (done bool, err error, paniced bool) {
 // c03EvalWrapper is the goroutine that calls exec.Eval; its name is looked for
 // in goroutine dumps.
 func c03EvalWrapper(ctx context.Context, r *evalRun, roots []*exec.Task) {
+	r.entered.Store(true)
 	defer func() {
 		if p := recover(); p != nil {
 			r.mu.Lock()
@@ -424,6 +433,13 @@ func settle(evs []*evalRun, limit time.Duration) bool {
 	for {
 		runtime.Gosched()
 		ok, found := parked()
+		for _, r := range evs {
+			// a goroutine that has not run yet shows only its compiler-generated
+			// wrapper in a dump: wait until Eval's caller has announced itself
+			if r.started && !r.entered.Load() {
+				ok = false
+			}
+		}
 		if ok && found == 0 {
 			for _, r := range evs {
 				if d, _, _ := r.result(); r.started && !d {
@@ -464,6 +480,9 @@ type evalStats struct {
 
 // runEval executes an eval-mode case in lock-step.
 func runEval(d *Desc, gen evalGen) (term string, stats evalStats) {
+	if d.Procs > 0 {
+		defer runtime.GOMAXPROCS(runtime.GOMAXPROCS(d.Procs))
+	}
 	ts := buildTasks(d)
 	index := map[*exec.Task]int{}
 	for i, t := range ts {
@@ -615,11 +634,12 @@ func runEval(d *Desc, gen evalGen) (term string, stats evalStats) {
 		for e, x := range res {
 			rs[e] = natT(x)
 		}
-		// Task.consecutiveLost: with two evaluations the count depends on goroutine timing
-		// (the runner's waiter may miss a loss that the other evaluation resubmits first),
-		// so it is recorded for single evaluations only.
+		// Task.consecutiveLost: recorded for single evaluations and for the scripted
+		// multi-evaluation scenarios. (In the random two-evaluation histories an
+		// evaluation whose waiter missed a loss re-traverses its roots later than the
+		// model's schedule says, which is visible in other tasks' counters.)
 		var cls []int64
-		if ne == 1 {
+		if ne == 1 || d.Cl {
 			for _, t := range ts {
 				cls = append(cls, int64(exec.VerifC03ConsecutiveLost(t)))
 			}
@@ -915,12 +935,15 @@ func genEvalCase(r *vf.Rand, i, ne int) Desc {
 	after := -1 // events still to inject after every evaluation has returned
 	// Two evaluations that both wait for the same task race when it is lost: the one
 	// whose main loop resubmits it first resets it to WAITING, and the other one's
-	// waiter goroutine may or may not have seen LOST by then (it matters for the loss
-	// counter and for when that evaluation next re-traverses its roots). Which happens
-	// is decided by goroutine timing, so the deterministic check keeps out of it: a
-	// task that is WAITING/RUNNING and needed by two live evaluations is never lost
-	// (it may still complete, fail, or be lost once it is OK). The race itself is
-	// reported by -probe2 and by C03_lost_limit_two_evaluators_refuted.
+	// waiter goroutine may or may not have seen LOST by then. Since 0540c52 the loss
+	// is counted exactly once either way, but an evaluation whose waiter missed the
+	// loss does not call Return and so re-traverses its roots later than one that saw
+	// it: in a random history that shows in which other lost tasks it picks up when.
+	// The random two-evaluation histories therefore never lose a task that is
+	// WAITING/RUNNING and needed by two live evaluations (it may still complete, fail,
+	// or be lost once it is OK); shared tasks are lost in the scripted scenarios
+	// (genScenario) and in the free-running trials (genTrial), where only the lost
+	// task changes during the streak and the outcome at quiescence is determined.
 	cones := make([]map[int]bool, ne)
 	for e := range cones {
 		cones[e] = map[int]bool{}
@@ -989,10 +1012,20 @@ func genEvalCase(r *vf.Rand, i, ne int) Desc {
 				cs = append(cs, cand{t, "OK", 10}, cand{t, "LOST", 4}, cand{t, "ERROR", 1})
 			case "OK":
 				cs = append(cs, cand{t, "LOST", 1}, cand{t, "RUNNING", 1}) // later loss; discard in progress
-			case "LOST":
-				cs = append(cs, cand{t, "WAITING", 1}) // resubmitted by another invocation
-			case "INIT":
-				cs = append(cs, cand{t, "WAITING", 1}) // taken by another invocation
+			case "LOST", "INIT":
+				// resubmitted / taken by another invocation - which, like this one, only
+				// runs a task whose dependencies are there
+				ready := true
+				for _, dep := range g[t].Deps {
+					for _, u := range phaseOfGraph(g, dep) {
+						if states[u] != "OK" {
+							ready = false
+						}
+					}
+				}
+				if ready {
+					cs = append(cs, cand{t, "WAITING", 1})
+				}
 			}
 		}
 		for i := range cs {
@@ -1028,6 +1061,70 @@ func genEvalCase(r *vf.Rand, i, ne int) Desc {
 		return Op{}, false
 	}
 	_, _ = runEval(&d, gen)
+	return d
+}
+
+// ---- scripted loss scenarios: ne evaluations share a small graph; the victim is
+// lost k times in a row while handed out (nothing else changes meanwhile), then
+// everything that is handed out completes. Error exactly at the max-th consecutive
+// loss, exactly one hand-out per loss, one count per loss - whatever the goroutine
+// schedule.
+type scenario struct {
+	name   string
+	graph  []Node
+	roots  []int
+	victim int
+}
+
+var scenarios = []scenario{
+	{"single", []Node{{}}, []int{0}, 0},
+	{"chain-dep", []Node{{}, {Deps: []int{0}}}, []int{1}, 0},
+	{"chain-root", []Node{{}, {Deps: []int{0}}}, []int{1}, 1},
+	{"group-member", []Node{{Group: []int{0, 1}}, {Group: []int{0, 1}}, {Deps: []int{0}}}, []int{2}, 1},
+	{"group-consumer", []Node{{Group: []int{0, 1}}, {Group: []int{0, 1}}, {Deps: []int{0}}}, []int{2}, 2},
+	{"diamond-mid", []Node{{}, {Deps: []int{0}}, {Deps: []int{0}}, {Deps: []int{1, 2}}}, []int{3}, 2},
+}
+
+func genScenario(sc scenario, ne, k, procs int, shape string) Desc {
+	d := Desc{Mode: "eval", Shape: shape, Graph: sc.graph, Cl: true, Procs: procs}
+	for range sc.graph {
+		d.Init = append(d.Init, "INIT")
+	}
+	for e := 0; e < ne; e++ {
+		d.Roots = append(d.Roots, append([]int{}, sc.roots...))
+	}
+	step, losses := 0, 0
+	gen := func(states []string, started []bool, results []int, outstanding [][]int) (Op, bool) {
+		step++
+		if step > 60 {
+			return Op{}, false
+		}
+		for e := 0; e < ne; e++ {
+			if !started[e] {
+				return Op{K: "start", E: e}, true
+			}
+		}
+		live := false
+		for e := 0; e < ne; e++ {
+			if results[e] == 0 {
+				live = true
+			}
+		}
+		if !live {
+			return Op{}, false
+		}
+		if v := states[sc.victim]; (v == "WAITING" || v == "RUNNING") && losses < k {
+			losses++
+			return Op{K: "set", T: sc.victim, S: "LOST"}, true
+		}
+		for t, s := range states {
+			if s == "WAITING" || s == "RUNNING" {
+				return Op{K: "set", T: t, S: "OK"}, true
+			}
+		}
+		return Op{}, false
+	}
+	runEval(&d, gen)
 	return d
 }
 
@@ -1075,6 +1172,9 @@ func sweepCases(g []Node, roots []int, shape string) []Desc {
 func kindOf(d *Desc) string {
 	if d.Mode == "sync" {
 		return "sync/" + d.Shape
+	}
+	if strings.HasPrefix(d.Shape, "loss") || strings.HasPrefix(d.Shape, "trial") {
+		return d.Shape
 	}
 	return fmt.Sprintf("eval%d/%s", len(d.Roots), d.Shape)
 }
@@ -1128,7 +1228,7 @@ func main() {
 	out := &vf.Output{ID: "C03", Import: "BS.C03.Corr", Prelude: prelude(),
 		Rule: "random DAGs of phases (chains, diamonds, multi-root, shuffle groups, mixed with shared/repeated deps), " +
 			"all initial task states; (i) op sequences on the hooked scheduling state, (ii) the real Eval in lock-step, " +
-			"one and two evaluations; non-trivial = sync: at least one Return executed; eval: at least one Run handed out " +
+			"one and two evaluations, scripted loss streaks and free-running loss trials with two and three; non-trivial = sync: at least one Return executed; eval: at least one Run handed out " +
 			"and (a loss of a handed-out task, a second evaluation, or a non-INIT initial state); distinct by case text",
 		Extra: map[string]interface{}{}}
 	var descs []Desc
@@ -1153,6 +1253,34 @@ func main() {
 		for i := 0; i < nEval2; i++ {
 			descs = append(descs, genEvalCase(root.Split(), i, 2))
 		}
+		// scripted loss scenarios, 2 and 3 evaluations, k = 1..6 consecutive losses
+		maxLost := exec.VerifC03MaxConsecutiveLost()
+		for _, ne := range []int{2, 3} {
+			for _, sc := range scenarios {
+				for k := 1; k <= maxLost+1; k++ {
+					descs = append(descs, genScenario(sc, ne, k, 0, fmt.Sprintf("loss%d/%s", ne, sc.name)))
+				}
+			}
+		}
+		// released work starts at once: a shuffle phase {0,1} feeds task 2 while the
+		// independent root 3 keeps the evaluation busy; 2 must start when 1 (not the
+		// head of its phase) completes, not only when nothing else is pending
+		release := scenario{"group-nonhead", []Node{{Group: []int{0, 1}}, {Group: []int{0, 1}}, {Deps: []int{0}}, {}}, []int{2, 3}, 0}
+		for _, ne := range []int{1, 2, 3} {
+			descs = append(descs, genScenario(release, ne, 0, 0, fmt.Sprintf("loss%d/release-%s", ne, release.name)))
+		}
+		// free-running trials of the loss accounting: one task, 2 or 3 evaluations,
+		// lost every time it is handed out, under varying GOMAXPROCS
+		nTrial := 300
+		if opts.Tier == "thorough" {
+			nTrial = 3000
+		}
+		nTrial *= opts.Scale
+		for i := 0; i < nTrial; i++ {
+			procs := []int{0, 2, 3, 4, 8}[i%5]
+			descs = append(descs, genScenario(scenarios[0], 2+i%2, maxLost+1, procs, fmt.Sprintf("trial%d", 2+i%2)))
+		}
+		out.Extra["loss_trials"] = nTrial
 		chain2 := []Node{{}, {Deps: []int{0}}}
 		descs = append(descs, sweepCases(chain2, []int{1}, "sweep-chain2")...)
 		sweeps := []string{"chain2: all 36 initial states"}
@@ -1206,6 +1334,12 @@ func main() {
 					nontriv = vf.Hash(term)
 				}
 				sig := "eval-lockstep"
+				if strings.HasPrefix(d.Shape, "loss") || strings.HasPrefix(d.Shape, "trial") {
+					sig = "eval-loss-accounting"
+				}
+				if strings.Contains(d.Shape, "/release-") {
+					sig = "eval-released-work"
+				}
 				if st.errTouched {
 					sig = sigDefect
 				}
